@@ -31,7 +31,7 @@ class GpioWorld(World):
     )
 
     def runs(self, prop, tier):
-        return {"quick": 700, "thorough": 25000}[tier]
+        return {"quick": 2500, "thorough": 30000}[tier]
 
     def state_targets(self, prop, states):
         k = "pin(mode,out,setclr_code)"
